@@ -393,8 +393,9 @@ func c25(c *engine.Ctx) {
 		info := f.Info()
 		g := f.Graph()
 		succ := tgSuccessReturns(f)
-		vs := f.CallsTo(ICS+"VerifyMembership", ICS+"VerifyNonMembership")
-		c.Floor("ics23-verdict", len(vs), 2)
+		// the verification may sit in Run itself or in a private helper it calls (helper-transparent)
+		ds := f.DeepCallsTo(2, ICS+"VerifyMembership", ICS+"VerifyNonMembership")
+		c.Floor("ics23-verdict", len(ds), 2)
 		c.Floor("ics23-verdict returns", len(succ), 1)
 		keyF := p.Field(SB + "CommitmentOp.Key")
 		proofF := p.Field(SB + "CommitmentOp.Proof")
@@ -406,32 +407,142 @@ func c25(c *engine.Ctx) {
 				}
 			}
 		}
+		// build the level chain of a deep site
+		levelOf := func(d engine.DeepSite) *tgLevel {
+			l := &tgLevel{F: f}
+			cur := f
+			for _, h := range d.Chain {
+				var site *engine.Site
+				for _, s := range cur.Calls() {
+					if fn, _ := s.Callee.(*types.Func); fn != nil && p.FnOf(fn) == h {
+						if cur != f || s == d.Outer {
+							site = s
+						}
+					}
+				}
+				if site == nil {
+					return nil
+				}
+				l = &tgLevel{F: h, Parent: l, Call: site.Call, Site: site}
+				cur = h
+			}
+			return l
+		}
 		for _, r := range succ {
-			c.Check("ics23-verdict", f.Name+" success passes an ics23 verification", r.Pos(), g.MustPass(r, vs), "every path to the success return must call VerifyMembership or VerifyNonMembership")
+			okPass := g.MustPass(r, engine.Outers(ds))
+			// inside a helper every success return must itself pass a verification
+			for _, d := range ds {
+				if l := levelOf(d); l != nil && l.Parent != nil {
+					var inner []*engine.Site
+					for _, d2 := range ds {
+						if l2 := levelOf(d2); l2 != nil && l2.F == l.F {
+							inner = append(inner, d2.Inner)
+						}
+					}
+					for _, hr := range tgSuccessReturns(l.F) {
+						if !l.F.Graph().MustPass(hr, inner) {
+							okPass = false
+						}
+					}
+				}
+			}
+			c.Check("ics23-verdict", f.Name+" success passes an ics23 verification", r.Pos(), okPass, "every path to the success return must call VerifyMembership or VerifyNonMembership (directly or in a helper whose own success returns all pass one)")
 			// the returned root is the calculated one
 			rs := r.Node.(*ast.ReturnStmt)
 			c.Check("ics23-verdict", f.Name+" returns the calculated root", r.Pos(), rootVar != nil && len(rs.Results) > 0 && engine.Mentions(info, rs.Results[0], rootVar), "the op must hand the root calculated from its own proof to the next operator")
-			for _, v := range vs {
-				res := tgCondCallGate(f, v, r)
-				ok := res.OK && len(engine.Atoms(res.Cond)) == 1 && isNot(res.Cond) != res.OnTrue
+			for _, d := range ds {
+				v := d.Inner
+				name := v.CalleeName()[len(ICS):]
+				l := levelOf(d)
+				if l == nil {
+					c.Check("ics23-verdict", f.Name+" verdict of "+name+" gates success", v.Pos(), false, "helper chain could not be followed")
+					continue
+				}
+				ok := true
 				why := "success only when the ics23 verdict is true"
-				if !ok {
-					why = "the ics23 verdict does not (alone, with the right polarity) gate the success return"
-					if res.OK {
-						why += ": `" + engine.ExprString(res.Cond) + "`"
+				verdict := func(fn *engine.Fn, target *engine.Site) {
+					res := tgCondCallGate(fn, v, target)
+					if !(res.OK && len(engine.Atoms(res.Cond)) == 1 && isNot(res.Cond) != res.OnTrue) {
+						ok = false
+						why = "the ics23 verdict does not (alone, with the right polarity) gate the success return"
+						if res.OK {
+							why += ": `" + engine.ExprString(res.Cond) + "`"
+						}
 					}
 				}
-				c.Check("ics23-verdict", f.Name+" verdict of "+v.CalleeName()[len(ICS):]+" gates success", v.Pos(), ok, why)
+				if l.Parent == nil {
+					verdict(f, r)
+				} else {
+					n := 0
+					for _, hr := range tgSuccessReturns(l.F) {
+						if l.F.Graph().ReachableAfter(v, hr) {
+							n++
+							verdict(l.F, hr)
+						}
+					}
+					if n == 0 {
+						ok, why = false, "the helper has no success return after the verification"
+					}
+					// every helper on the chain reports failure as an error that the caller tests
+					for x := l; x.Parent != nil; x = x.Parent {
+						var targets []*engine.Site
+						if x.Parent.F == f {
+							targets = []*engine.Site{r}
+						} else {
+							targets = tgSuccessReturns(x.Parent.F)
+						}
+						for _, t := range targets {
+							if !tgErrChecked(x.Parent.F, x.Site, t) {
+								ok, why = false, "the error of helper "+x.F.Name+" is not tested before success"
+							}
+						}
+					}
+				}
+				c.Check("ics23-verdict", f.Name+" verdict of "+name+" gates success", v.Pos(), ok, why)
+				// arguments, with helper parameters resolved to the arguments passed by Run
 				a := v.Call.Args
-				okA := len(a) >= 4 && engine.ObjOf(info, a[0]) == specObj && specObj != nil &&
-					rootVar != nil && engine.ObjOf(info, a[1]) == rootVar &&
-					tgSelField(info, a[2]) == proofF && proofF != nil &&
-					tgSelField(info, a[3]) == keyF && keyF != nil
+				recvField := func(e ast.Expr, fld *types.Var) bool {
+					x := l
+					se, isSel := ast.Unparen(e).(*ast.SelectorExpr)
+					if !isSel || fld == nil || tgSelField(x.F.Info(), e) != fld {
+						return false
+					}
+					base := engine.ObjOf(x.F.Info(), se.X)
+					for {
+						if x.F.Decl == nil || x.F.Decl.Recv == nil || len(x.F.Decl.Recv.List) == 0 || len(x.F.Decl.Recv.List[0].Names) == 0 {
+							return false
+						}
+						if base == nil || x.F.Info().ObjectOf(x.F.Decl.Recv.List[0].Names[0]) != base {
+							return false
+						}
+						if x.Parent == nil {
+							return true
+						}
+						cs, isSel := ast.Unparen(x.Call.Fun).(*ast.SelectorExpr)
+						if !isSel {
+							return false
+						}
+						base = engine.ObjOf(x.Parent.F.Info(), cs.X)
+						x = x.Parent
+					}
+				}
+				okA := len(a) >= 4 && specObj != nil && engine.ObjOf(l.F.Info(), a[0]) == specObj
+				if okA {
+					ro, rl := tgResolveObj(l, engine.ObjOf(l.F.Info(), a[1]))
+					okA = rootVar != nil && ro == rootVar && rl.Parent == nil
+				}
+				okA = okA && recvField(a[2], proofF) && recvField(a[3], keyF)
 				if okA && len(a) == 5 {
 					ix, isIx := ast.Unparen(a[4]).(*ast.IndexExpr)
-					okA = isIx && engine.ObjOf(info, ix.X) == paramObj(f, 0)
+					okA = false
+					if isIx {
+						if tv := l.F.Info().Types[ix.Index]; tv.Value != nil && tv.Value.String() == "0" {
+							ao, al := tgResolveObj(l, engine.ObjOf(l.F.Info(), ix.X))
+							okA = ao == paramObj(f, 0) && al.Parent == nil
+						}
+					}
 				}
-				c.Check("ics23-verdict", f.Name+" arguments of "+v.CalleeName()[len(ICS):], v.Pos(), okA, "must be (bptree.BptreeSpec, calculated root, op.Proof, op.Key[, args[0]])")
+				c.Check("ics23-verdict", f.Name+" arguments of "+name, v.Pos(), okA, "must be (bptree.BptreeSpec, calculated root, op.Proof, op.Key[, args[0]])")
 			}
 		}
 	}
